@@ -86,6 +86,11 @@ func (w *sessionResponseWriter) WriteHeader(statusCode int) {
 		// Multiple calls ot WriteHeader are no-ops
 		return
 	}
+	if statusCode >= 100 && statusCode <= 199 && statusCode != http.StatusSwitchingProtocols {
+		// Informational responses are followed by the final response, which is the one to intercept.
+		w.wrapped.WriteHeader(statusCode)
+		return
+	}
 	w.wroteHeader = true
 	header := w.Header()
 	cookiesToAdd := (&http.Response{Header: header}).Cookies()
